@@ -46,6 +46,15 @@ TraceDoc ==
          {},
          IF ~e.is_yaml THEN {"published_example_is_not_yaml"} ELSE {})
   /\ UNCHANGED <<cid, ncases>>
+(* spec -> code: CliAux's terminal state for this argv vs the projection of the real run.  The jsonschema command is the *)
+(* way the published schema comes into being (C17); `nfpm init` is outside the listed properties: drift only.            *)
+TraceAux ==
+  /\ IsEv("aux")
+  /\ LET e == Trace[l]
+         agrees == e.obs_exit = e.tlc.exit /\ e.obs_fs = e.tlc.fs /\ e.obs_printed = e.tlc.printed /\ e.stray_files = 0
+     IN Rec(IF e.cmd = "jsonschema" THEN Cl(agrees, "C17.schema_command_terminal_state_as_specified") ELSE {},
+            IF e.cmd = "init" /\ ~agrees THEN {"DOC.init_command_terminal_state"} ELSE {}, {})
+  /\ UNCHANGED <<cid, ncases>>
 TraceLeaf ==
   /\ IsEv("leafprobe")
   /\ LET e == Trace[l] IN Rec(Cl(e.parser_accepts => e.schema_valid, "C17.accepted_leaf_validates"), {}, {})
@@ -55,7 +64,7 @@ TraceEof ==
   /\ PrintT(<<"VIOLSET", ToJson(viol)>>) /\ PrintT(<<"DRIFTSET", ToJson(drift)>>) /\ PrintT(<<"MERRSET", ToJson(merr)>>)
   /\ PrintT(<<"NCASES", ncases>>) /\ TLCSet(1, l)
   /\ UNCHANGED <<cid, viol, drift, merr, ncases>>
-TraceNext == TraceCase \/ TraceEnd \/ TraceFile \/ TraceSchemaParse \/ TraceKey \/ TraceEnum \/ TraceStrict \/ TraceDoc \/ TraceLeaf \/ TraceEof
+TraceNext == TraceCase \/ TraceEnd \/ TraceFile \/ TraceSchemaParse \/ TraceKey \/ TraceEnum \/ TraceStrict \/ TraceDoc \/ TraceAux \/ TraceLeaf \/ TraceEof
 TraceSpec == TraceInit /\ [][TraceNext]_vars
 HighWater == TLCSet(2, l)
 Accepted == TLCGet(1) = Len(Trace)
